@@ -107,8 +107,26 @@ def gen(args) -> list:
         d = LocalDate._ctor(days_since_epoch=n, calendar=cal)
         dow = IsoDayOfWeek(rnd.randint(1, 7))
         ev = {"op": "nav", "n": n, "dow": int(dow), "min_day": cal._min_days, "max_day": cal._max_days}
-        for name, fn in (("next", lambda: d.next(dow)), ("previous", lambda: d.previous(dow)),
-                         ("next_or_same", lambda: DateAdjusters.next_or_same(dow)(d)), ("previous_or_same", lambda: DateAdjusters.previous_or_same(dow)(d))):
+        # the same navigation through LocalDate, the DateAdjusters and LocalDateTime (which must also keep its time of day)
+        from pyoda_time import LocalTime
+
+        tod = LocalTime.from_nanoseconds_since_midnight(rnd.choice([0, 86_399_999_999_999, rnd.randrange(86_400 * 10**9)]))
+        route = rnd.randrange(3)
+
+        def via_ldt(f, tod=tod, d=d):
+            r = f(d.at(tod))
+            if r.time_of_day != tod or r.calendar != d.calendar:
+                raise AssertionError("time of day or calendar changed")
+            return r.date
+
+        nxt = [lambda: d.next(dow), lambda: DateAdjusters.next(dow)(d), lambda: via_ldt(lambda x: x.next(dow))][route]
+        prv = [lambda: d.previous(dow), lambda: DateAdjusters.previous(dow)(d), lambda: via_ldt(lambda x: x.previous(dow))][route]
+        nos = [lambda: DateAdjusters.next_or_same(dow)(d), lambda: d.with_date_adjuster(DateAdjusters.next_or_same(dow)),
+               lambda: via_ldt(lambda x: x.with_date_adjuster(DateAdjusters.next_or_same(dow)))][route]
+        pos = [lambda: DateAdjusters.previous_or_same(dow)(d), lambda: d.with_date_adjuster(DateAdjusters.previous_or_same(dow)),
+               lambda: via_ldt(lambda x: x.with_date_adjuster(DateAdjusters.previous_or_same(dow)))][route]
+        ev["route"] = route
+        for name, fn in (("next", nxt), ("previous", prv), ("next_or_same", nos), ("previous_or_same", pos)):
             try:
                 ev[name] = fn()._days_since_epoch
                 ev[name + "_raised"] = False
